@@ -104,7 +104,13 @@ class Ctx:
             h = hashlib.sha1(("%d/%s/%s" % (os.getpid(), self.tag, self.wid)).encode()).hexdigest()[:10]
             root = "/dev/shm/lesim-%s-%s" % (h, fl[:4])
             env = {"TSAN_OPTIONS": "external_symbolizer_path=/usr/bin/llvm-symbolizer-14", "ASAN_SYMBOLIZER_PATH": "/usr/bin/llvm-symbolizer-14"}
-            self.ex[fl] = Executor(self.build.binary(fl), root, env=env)
+            real = fl
+            if fl == "asq0":
+                # the ASan build without quarantine: freed blocks are handed out again at once, so that defects which need
+                # an ADDRESS to come back (stale caches keyed by pointer) can happen; freed-and-not-yet-reused memory stays poisoned
+                real = "asan"
+                env["ASAN_OPTIONS"] = "quarantine_size_mb=0:thread_local_quarantine_size_kb=0"
+            self.ex[fl] = Executor(self.build.binary(real), root, env=env)
         return self.ex[fl]
 
     def close(self):
@@ -121,7 +127,7 @@ def run_case(mod, ctx, world):
     if hasattr(mod, "run_case"):
         results = mod.run_case(ctx, world, plans)
     else:
-        ex = ctx.executor("asan")
+        ex = ctx.executor("asq0" if world.get("cfg", {}).get("quarantine0") else "asan")
         results = [ex.run(p) for p in plans]
     verdict = mod.check(world, plans, results)
     return plans, results, verdict
